@@ -25,7 +25,9 @@ def handle_case(draw, broker):
                      "defer_by": draw(st.sampled_from([None, None, 2.0])),
                      "actions": draw(st.lists(st.tuples(st.sampled_from(ACTIONS), st.sampled_from([None, 0.0, 1.5])).map(list),
                                               min_size=1, max_size=6))})
-    return {"broker": broker, "seed": draw(st.integers(0, 999)), "category": cat, "msgs": msgs}
+    return {"broker": broker, "seed": draw(st.integers(0, 999)), "category": cat, "msgs": msgs,
+            # the level the host application gave the "repid" logger (at DEBUG every log line of the library gets formatted)
+            "log": draw(st.sampled_from([None, None, None, "DEBUG"]))}
 
 
 async def _handles(loop, case, out: Outcome):
@@ -33,7 +35,7 @@ async def _handles(loop, case, out: Outcome):
     from repid.data._key import RoutingKey
     from repid.data._parameters import DelayProperties, Parameters, RetriesProperties
 
-    reset_globals()
+    reset_globals(case.get("log"))
     env = Env(case["broker"], loop, case["seed"])
     spy = Spy(loop)
     conn = env.connection("c0", None, buckets=False, spy=spy)
@@ -163,7 +165,7 @@ def program_case(draw):
         elif k == "result":
             prog.append(["result", draw(gen.json_value)])
         elif k == "exception":
-            prog.append(["exception", draw(st.sampled_from(gen.EXC_NAMES)), draw(st.text("ab", max_size=3))])
+            prog.append(["exception", draw(st.sampled_from(gen.EXC_NAMES)), draw(gen.EXC_TEXT)])
         else:
             prog.append(["try_retry"])
     action = draw(st.sampled_from(["ack", "nack", "reject", "reschedule", "force_retry"]))
@@ -177,7 +179,8 @@ def program_case(draw):
         job["iterations"] = 1
     return {"broker": "mem", "seed": draw(st.integers(0, 999)), "converter": draw(st.sampled_from(["basic", "pydantic"])),
             "actors": [{"name": "a_plain", "queue": "q0", "shape": "plain"}], "policy": {"kind": "table", "values": [30.0]},
-            "worker": {"tasks_limit": 1}, "jobs": [job], "horizon": 8.0, "stop": "signal"}
+            "worker": {"tasks_limit": 1}, "jobs": [job], "horizon": 8.0, "stop": "signal",
+            "log": draw(st.sampled_from([None, None, None, "DEBUG"]))}
 
 
 @st.composite
@@ -195,7 +198,7 @@ def dep_eager_case(draw):
     return gen.finalize({"broker": draw(st.sampled_from(["mem", "mem", "redis", "amqp"])), "seed": draw(st.integers(0, 999)),
                          "converter": draw(st.sampled_from(["basic", "pydantic"])),
                          "actors": [actor], "policy": {"kind": "table", "values": [0.2]},
-                         "worker": {"tasks_limit": 1}, "jobs": [job]})
+                         "worker": {"tasks_limit": 1}, "jobs": [job], "log": draw(st.sampled_from([None, None, None, "DEBUG"]))})
 
 
 def run_dep_eager(case: dict) -> Outcome:
